@@ -16,6 +16,7 @@ SOURCES = {
     "iterx": ("IterIntoPar::par(Src::new(input.clone(), true))", "val", True),
     "iteru": ("IterIntoPar::par(Src::new(input.clone(), false))", "val", False),
     "deque": ("VecDeque::from(input.clone()).into_par()", "val", True),
+    "endless": ("IterIntoPar::par(Endless::new())", "val", False),
 }
 
 STAGES = "MFXO"
@@ -63,6 +64,8 @@ def chains_for(source):
         out += [a + b for a in STAGES for b in STAGES]
         out += [p + c for p in ("MF", "OF", "XF") for c in STAGES]
         return out
+    if source == "endless":
+        return ["", "M", "F", "MF", "X", "O"]
     return ["", "M", "F", "X", "O", "MF", "FM", "XF", "OF", "FX", "XFM"]
 
 
@@ -102,8 +105,8 @@ def gen_shape(source, chain):
         else:
             stage_exprs.append(".filter_map(mk_fm(%d, c.cl[%d]))" % (sid, k))
             t = "val"
-    build = "%s.num_threads(c.nt1).chunk_size(c.cs1)%s.num_threads(c.nt2).chunk_size(c.cs2)" % (expr, "".join(stage_exprs))
-    lines.append("    macro_rules! build { () => {{ set_phase(0); let p = %s; *hdr.borrow_mut() = format!(\"params={} kind={}\", params_str(p.params()), kind_of(&p)); set_phase(1); p }} }" % build)
+    build = "%s.num_threads(c.nt1).chunk_size(c.cs1)%s" % (expr, "".join(stage_exprs))
+    lines.append("    macro_rules! build { () => {{ set_phase(0); let p = %s; let pmid = params_str(p.params()); let p = p.chunk_size(c.cs2).num_threads(c.nt2); *hdr.borrow_mut() = format!(\"params={} pmid={} kind={}\", params_str(p.params()), pmid, kind_of(&p)); set_phase(1); p }} }" % build)
     rust_t = {"val": "i64", "ref": "&i64", "us": "usize"}[t]
     # old contents for collect_into, in the item type
     if t == "val":
